@@ -296,7 +296,8 @@ def generate(tier, rng):
             v = rng.choice([1 << k, -(1 << k), (1 << k) - 1, -(1 << k) - 1, rng.getrandbits(k + 1) * rng.choice([1, -1]),
                             # the windows in which NumPy picks uint64 / wraps int64 by itself
                             (1 << 63) + rng.getrandbits(62), (1 << 64) - 1 - rng.getrandbits(8), 1 << 63, -(1 << 63) - 1 - rng.getrandbits(8),
-                            ((1 << 63) + rng.getrandbits(60)) >> f, -(((1 << 63) + rng.getrandbits(60)) >> f)])
+                            ((1 << 63) + rng.getrandbits(60)) >> f, -(((1 << 63) + rng.getrandbits(60)) >> f),
+                            (1 << 63) >> f, (1 << 64) >> f, -((1 << 63) >> f) - 1, (1 << 62) >> f])      # scaled value exactly at 2^63 / 2^64
             yield 'SX %s %d %d %s %s %d' % ('s' if s else 'u', n, f, r, rng.choice(['pyint', 'list']), v)
 
 
